@@ -240,6 +240,31 @@ impl Mon {
             }
             self.r.eval();
             self.r.count(&format!("C18.accepted_interest_configs/{}", info.kind.name()));
+            // a migrated legacy curve is the same curve: nothing at no utilisation, the plateau rate at
+            // the optimal utilisation, the maximum rate at full utilisation (up to the 32-bit grid of
+            // the new representation; legacy rates above the representable 1000 % are not judged)
+            if info.kind == Kind::MigrateCurve {
+                if let Some(p) = pre {
+                    let l = &p.config.interest_rate_config;
+                    if l.curve_type == 0 {
+                        let (opt, plat, max) = (w_(&l.optimal_utilization_rate), w_(&l.plateau_interest_rate), w_(&l.max_interest_rate));
+                        if max <= ri(10) && plat <= ri(10) {
+                            self.r.count("C18.legacy_migrations_compared");
+                            let m32 = ru(u32::MAX as u128);
+                            let used: Vec<(u32, u32)> = c.points.iter().filter(|q| q.util != 0).map(|q| (q.util, q.rate)).collect();
+                            let grid = rq(1, 1i128 << 31);
+                            let ok = used.len() == 1
+                                && c.zero_util_rate == 0
+                                && abs(&(ru(used[0].0 as u128) / &m32 - &opt)) <= grid
+                                && abs(&(ru(used[0].1 as u128) * ri(10) / &m32 - &plat)) <= &grid * ri(10)
+                                && abs(&(ru(c.hundred_util_rate as u128) * ri(10) / &m32 - &max)) <= &grid * ri(10);
+                            if !ok {
+                                self.r.violate("C18", "C18/MigrateCurve/migrated-curve-differs-from-the-legacy-curve", format!("bank {}: legacy (optimal {}, plateau {}, max {}) -> zero {} points {:?} hundred {}", bk, show(&opt), show(&plat), show(&max), c.zero_util_rate, used, c.hundred_util_rate));
+                            }
+                        }
+                    }
+                }
+            }
             let used: Vec<(u32, u32)> = c.points.iter().filter(|p| p.util != 0).map(|p| (p.util, p.rate)).collect();
             self.r.distinct(&("c18-chain", info.kind.name(), used.len(), c.zero_util_rate == 0, c.hundred_util_rate == u32::MAX));
             let mut prev = (0u32, c.zero_util_rate);
